@@ -124,6 +124,9 @@ func rlValueOK(k int, v string) bool {
 //	J        store.RespondJson(1)               model: w
 //	flush    store.W.Flush()                    model: f   (implicit 200 when nothing was sent yet)
 //	flusherr store.W.FlushError()               model: f
+//	copy     io.Copy(store.W, reader w/o WriteTo) model: w   (takes ResponseWriter.ReadFrom if there is one)
+//	copyfile io.Copy(store.W, *os.File)         model: w   (File.WriteTo falls back to a generic copy -> ReadFrom)
+//	wstr     io.WriteString(store.W, "s")       model: w   (takes ResponseWriter.WriteString if there is one)
 //	E404     store.Error404("own404")           model: h404,w
 //	E500     store.Error500("own500")           model: h500,w
 //	p<k>     panic with value kind k            model: p<k>
@@ -143,6 +146,8 @@ func rlModelTokens(tok string) []string {
 		return []string{"h500", "w"}
 	case "flush", "flusherr":
 		return []string{"f"}
+	case "copy", "copyfile", "wstr":
+		return []string{"w"}
 	}
 	return []string{tok}
 }
@@ -177,6 +182,18 @@ func rlExec(store *httpd.Store, script string) {
 			store.W.Flush()
 		case tok == "flusherr":
 			store.W.FlushError()
+		case tok == "copy":
+			// the wrapper hides strings.Reader's WriteTo, so io.Copy looks for dst.(io.ReaderFrom)
+			io.Copy(store.W, struct{ io.Reader }{strings.NewReader("c")})
+		case tok == "copyfile":
+			if f, err := os.Open(rlCopyFilePath()); err == nil {
+				io.Copy(store.W, f)
+				f.Close()
+			} else {
+				store.W.Write([]byte("cf")) // keep the behaviour "writes" even if the file is gone
+			}
+		case tok == "wstr":
+			io.WriteString(store.W, "s")
 		case tok == "r":
 			return
 		case tok == "pa":
@@ -189,6 +206,25 @@ func rlExec(store *httpd.Store, script string) {
 			rlPanic(k)
 		}
 	}
+}
+
+var rlCopyFile struct {
+	once sync.Once
+	path string
+}
+
+// rlCopyFilePath: a small file for the copyfile token (created once, removed by runRelay).
+func rlCopyFilePath() string {
+	rlCopyFile.once.Do(func() {
+		f, err := os.CreateTemp("", "glb-verif-relay-copy-")
+		if err != nil {
+			fatal(err)
+		}
+		f.WriteString("file body")
+		f.Close()
+		rlCopyFile.path = f.Name()
+	})
+	return rlCopyFile.path
 }
 
 // what a behaviour (model tokens) does, read off the script alone — the oracle's own semantics
@@ -767,7 +803,7 @@ func rlRandomScript(r *Rng) []string {
 		case c < 45:
 			s = append(s, "w")
 		case c < 55:
-			s = append(s, Pick(r, []string{"R", "Rw", "J", "E404", "E500", "flush", "flusherr", "flush", "flusherr"}))
+			s = append(s, Pick(r, []string{"R", "Rw", "J", "E404", "E500", "flush", "flusherr", "flush", "flusherr", "copy", "copyfile", "wstr", "copy", "copyfile"}))
 		case c < 90:
 			s = append(s, "p"+strconv.Itoa(1+r.Intn(rlKinds)))
 		case c < 94:
@@ -837,9 +873,8 @@ func (rr *rlRun) judge(c rlCase, o rlObs, shrink bool) {
 		s.Count("behaviour.return-after-writing")
 	}
 	for _, t := range c.Script {
-		if t == "flush" || t == "flusherr" {
+		if t == "flush" || t == "flusherr" || t == "copy" || t == "copyfile" || t == "wstr" {
 			s.Count("behaviour.uses-" + t)
-			break
 		}
 	}
 	if len(c.Script) > 0 && (c.Script[0] == "flush" || c.Script[0] == "flusherr") && sem.panicKind > 0 {
@@ -955,7 +990,12 @@ func (rr *rlRun) batch(m *rlMux, cases []rlCase, via string, do func(c rlCase) r
 func runRelay(cfg Cfg) {
 	s := NewStream(cfg.Out, "relay")
 	defer s.Close()
-	s.Rule = "handler behaviour scripts (WriteHeader/Write/Flush/FlushError/Respond200/RespondJson/Error404/Error500/return/panic with 11 kinds of values/ErrAbortHandler) on the real Mux+Relay, 3 handlers x 5 thresholds x plain/colourful, matched, unmatched (default and scripted no-route handler) and method-mismatch routes; exhaustive scripts up to length 3 (quick) / 4 (thorough) over {h200,h404,h500,w,flush,p1,pa,r}, random longer ones, 32 requests in flight through recorders and (thorough) a real loopback server; evaluation = the C15 contract on one request; non-trivial = in-scope request whose handler panics, distinct by (handler, threshold, colour, script)"
+	s.Rule = "handler behaviour scripts (WriteHeader/Write/Flush/FlushError/io.Copy from a plain reader and from an *os.File/io.WriteString/Respond200/RespondJson/Error404/Error500/return/panic with 11 kinds of values/ErrAbortHandler) on the real Mux+Relay, 3 handlers x 5 thresholds x plain/colourful, matched, unmatched (default and scripted no-route handler) and method-mismatch routes; exhaustive scripts up to length 3 (quick) / 4 (thorough) over {h200,h404,h500,w,flush,p1,pa,r}, random longer ones, 32 requests in flight through recorders and through a real loopback server (both tiers: all scripts of length <= 2 over the writing entry points, plus random ones); evaluation = the C15 contract on one request; non-trivial = in-scope request whose handler panics, distinct by (handler, threshold, colour, script)"
+	defer func() {
+		if rlCopyFile.path != "" {
+			os.Remove(rlCopyFile.path)
+		}
+	}()
 	rng := NewRng(cfg.Seed)
 	rr := &rlRun{s: s, muxes: map[string]*rlMux{}}
 	handlers := []string{"nano", "text", "json"}
@@ -1018,23 +1058,33 @@ func runRelay(cfg Cfg) {
 		}
 	}
 
-	// 4. thorough: a real loopback server, 32 requests in flight
-	if cfg.Thorough() {
-		for _, h := range handlers {
-			r := rng.Fork()
-			m := rlNewMux(h, 4, false, true)
-			cases := make([]rlCase, 3000)
-			for i := range cases {
-				method, uri, matched := rlRandomTarget(r, m.scripted)
-				if method == "HEAD" {
-					method = "GET" // the body tells whether Relay sent its own 500 page
-				}
-				cases[i] = rlCase{Handler: h, Thr: 4, Scripted: true, Method: method, URI: uri,
-					Script: rlFixScript(m, matched, rlRandomScript(r)), key: "n" + strconv.Itoa(i)}
+	// 4. a real loopback server (net/http's own ResponseWriter: Flusher, FlushError, io.ReaderFrom, …),
+	// 32 requests in flight — in BOTH tiers: every script of length <= 2 over the writing entry points
+	// and terminators (so e.g. "copy,p1", "copyfile,p1", "flusherr,p1", "wstr,p1"), then random ones
+	small := rlAllScripts([]string{"h200", "h404", "w", "flush", "flusherr", "copy", "copyfile", "wstr", "p1", "pa", "r"}, 2)
+	for _, h := range handlers {
+		r := rng.Fork()
+		m := rlNewMux(h, 4, false, true)
+		var cases []rlCase
+		for i, sc := range small {
+			method := "GET"
+			if i%3 == 1 {
+				method = "POST"
 			}
-			rlServerBatch(rr, m, cases)
+			cases = append(cases, rlCase{Handler: h, Thr: 4, Scripted: true, Method: method, URI: "/s/x" + strconv.Itoa(i),
+				Script: sc, key: "e" + strconv.Itoa(i)})
 		}
+		for i := 0; i < cfg.N(60, 3000); i++ {
+			method, uri, matched := rlRandomTarget(r, m.scripted)
+			if method == "HEAD" {
+				method = "GET" // the body tells whether Relay sent its own 500 page
+			}
+			cases = append(cases, rlCase{Handler: h, Thr: 4, Scripted: true, Method: method, URI: uri,
+				Script: rlFixScript(m, matched, rlRandomScript(r)), key: "n" + strconv.Itoa(i)})
+		}
+		rlServerBatch(rr, m, cases)
 	}
+	s.Notes = append(s.Notes, fmt.Sprintf("real loopback server (both tiers): %d scripts of length <= 2 over 11 tokens + %d random per handler", len(small), cfg.N(60, 3000)))
 }
 
 // rlServerBatch: the cases go through a real http.Server on a loopback port.
